@@ -158,6 +158,10 @@ func generate(w *mon.W) {
 			sort.Strings(names)
 			if len(names) > 0 && rng.Intn(4) != 0 {
 				c.X = Name(names[rng.Intn(len(names))])
+				if rng.Intn(2) == 0 {
+					// the shorthand written in back quotes is the column of that name, never the binding
+					c.X = QName(c.X.Parts[0].Name)
+				}
 			} else {
 				c.X = Name("ia")
 			}
@@ -441,9 +445,30 @@ func Check(c *Case, r *mon.R) {
 	}
 	extraLets = append(extraLets[:at:at], append([]LetDef{{"zz9", Bin("+", Num("1"), Num("2"))}}, extraLets[at:]...)...)
 	after := []LetDef{{"zz7", Name("no_such_binding")}, {"zz6", Name("a", "b")}}
-	for k := range scope {
-		after = append(after, LetDef{k, Num("99")})
-		break
+	{
+		// lets after the query that rebind names the query uses, with plain and
+		// with signed values (sorted, so that the choice does not depend on map order)
+		var ks []string
+		for k := range scope {
+			ks = append(ks, k)
+		}
+		sort.Strings(ks)
+		for i, k := range ks {
+			if i >= 2 {
+				break
+			}
+			v := Num("99")
+			if (i+len(ks))%2 == 0 {
+				v = Un("-", Num("98"))
+			}
+			after = append(after, LetDef{k, v})
+		}
+		for _, col := range cols {
+			if !strings.Contains(col, "\x1f") && plainName(col) {
+				after = append(after, LetDef{col, Un("-", Num("97"))})
+				break
+			}
+		}
 	}
 	p2 := map[string]string{"zz8": "$9"}
 	// the number of unused parameters varies (small maps and large ones may be handled differently)
@@ -527,6 +552,19 @@ func checkVerbatim(v *Verbatim, r *mon.R) {
 	}
 	r.Nontrivial()
 	r.Count("verbatim_checks", 1)
+}
+
+func plainName(s string) bool {
+	if s == "" || s == "true" || s == "false" || s == "null" {
+		return false
+	}
+	for i := 0; i < len(s); i++ {
+		c := s[i]
+		if !(c == '_' || c >= 'a' && c <= 'z' || c >= 'A' && c <= 'Z' || i > 0 && c >= '0' && c <= '9') {
+			return false
+		}
+	}
+	return true
 }
 
 func scopeString(s map[string]val.V) string {
